@@ -28,7 +28,7 @@ PROFILE_T = gen.Profile("optimizer", max_steps=10, max_rows=16, n_tables=(1, 3))
 
 
 def systematic(tier):
-    return templates.c01_cases(tier)
+    return templates.c01_cases(tier) + templates.matrix_cases(tier)
 
 
 def strategy(tier):
